@@ -895,7 +895,7 @@ Proof.
     + intros v Hv. destruct (label_eqb (nth v st LU) LU) eqn:E.
       * apply label_eqb_eq in E. pose proof (F1 v Hv E) as HF1.
         destruct (us1_cases (nth v st2 LU) (nth v w zero) (F3' v E)) as [[C1 [C2 C3]]|[C1 _]].
-        { rewrite C3 in HF1. inversion HF1. auto. }
+        { rewrite C3 in HF1. left. congruence. }
         { assert (E3 : nth v st3 LU = fst (us1F (nth v st2 LU) (nth v w zero))) by (rewrite <- HF1; reflexivity).
           destruct C1 as [C1|C1]; rewrite C1 in E3; auto. }
       * apply label_eqb_neq in E. rewrite (Hstay v E). destruct (HT v Hv) as [H|H]; [contradiction|auto].
@@ -908,7 +908,7 @@ Proof.
       * apply label_eqb_neq in E. rewrite (proj2 (F2 v E)). apply HA; assumption.
     + intros u Hu HUu. apply K3 in HUu; [|exact Hu]. destruct HUu as [E Hk].
       apply (keep2_iff st2 w u (F3' u E)) in Hk. destruct Hk as [K1 K2].
-      pose proof (F1 u Hu E) as HF1. unfold us1 in HF1. rewrite K1, K2 in HF1. cbn in HF1. inversion HF1. exact K2.
+      pose proof (F1 u Hu E) as HF1. unfold us1 in HF1. rewrite K1, K2 in HF1. cbn in HF1. inversion HF1 as [[H0' H1']]. rewrite H1'. exact K2.
   - (* inactive ranks have empty work lists *)
     intros dy' Hdy' Hf'. apply (In_nth _ _ (mkPdyn F [] [] [] [] false)) in Hdy'. destruct Hdy' as [i [Hi E]].
     assert (LD : length dl = length bs) by (apply Forall2_length' in HF2; rewrite combine_length in HF2; lia).
@@ -919,7 +919,7 @@ Proof.
     unfold NewDy in HN. cbn zeta in HN. cbn [snd] in HN. destruct (d_active F dy2) eqn:Eact2.
     + destruct HN as [_ [_ [_ [_ [_ [_ N7]]]]]]. rewrite N7 in Hf'.
       destruct (d_un F dy') as [|? ?]; destruct (d_unoff F dy') as [|? ?]; try discriminate. auto.
-    + subst dy'. destruct (HA2 _ dy2 Hbd2) as [dy [Hbd0 [Ea [Eun [Euo _]]]]].
+    + rewrite HN. destruct (HA2 _ dy2 Hbd2) as [dy [Hbd0 [Ea [Eun [Euo _]]]]].
       destruct (HR _ dy Hbd0) as [_ [_ [_ [_ [_ [_ [_ Hact]]]]]]]. rewrite Ea in Eact2. rewrite Eun, Euo. apply Hact. exact Eact2.
   - (* ranks with empty work lists leave the loop *)
     intros dy' Hdy' E1 E2. apply (In_nth _ _ (mkPdyn F [] [] [] [] false)) in Hdy'. destruct Hdy' as [i [Hi E]].
@@ -930,9 +930,119 @@ Proof.
     destruct (Forall2_combine_In (NewDy st2 w) bs dys2 dl HF2 HL2 _ dy' Hbd') as [dy2 [Hbd2 HN]].
     unfold NewDy in HN. cbn zeta in HN. cbn [snd] in HN. destruct (d_active F dy2) eqn:Eact2.
     + destruct HN as [_ [_ [_ [_ [_ [_ N7]]]]]]. rewrite N7, E1, E2. reflexivity.
-    + subst dy'. exact Eact2.
+    + rewrite HN. exact Eact2.
   - exact Hstay.
   - intros Hex. destruct (PR1 Hex) as [m [Hm [HmU HmC]]]. exists m. split; [exact Hm|]. split; [exact HmU|].
     assert (E2 : nth m st2 LU = LNC) by (destruct (V2 m) as [H|[H _]]; congruence).
     pose proof (F1 m Hm HmU) as HF1. rewrite E2 in HF1. unfold us1 in HF1. cbn in HF1. inversion HF1. congruence.
+Qed.
+
+(* ----- the loop ----- *)
+Definition cntU (st : list label) : nat := length (filter (fun v => is_U (nth v st LU)) (seq 0 n)).
+
+Lemma filter_length_strict {A} (p p' : A -> bool) l :
+  (forall x, In x l -> p' x = true -> p x = true) ->
+  (exists x, In x l /\ p x = true /\ p' x = false) ->
+  length (filter p' l) < length (filter p l).
+Proof.
+  induction l as [|a l IH]; intros Himp [x [Hx [Hp Hp']]]; [destruct Hx|].
+  assert (Hle : length (filter p' l) <= length (filter p l)).
+  { clear - Himp. assert (H : forall x, In x l -> p' x = true -> p x = true) by (intros x Hx; apply Himp; right; exact Hx).
+    clear Himp. induction l as [|b l IHl]; simpl; [lia|].
+    assert (IHl' : length (filter p' l) <= length (filter p l)) by (apply IHl; intros x Hx; apply H; right; exact Hx).
+    destruct (p' b) eqn:E; [rewrite (H b (or_introl eq_refl) E); simpl; lia|destruct (p b); simpl; lia]. }
+  simpl. destruct Hx as [E|Hx].
+  - subst a. rewrite Hp, Hp'. simpl. lia.
+  - assert (IH' : length (filter p' l) < length (filter p l)).
+    { apply IH; [intros y Hy; apply Himp; right; exact Hy|exists x; auto]. }
+    destruct (p' a) eqn:E; [rewrite (Himp a (or_introl eq_refl) E); simpl; lia|destruct (p a); simpl; lia].
+Qed.
+
+Lemma cntU_decrease st st' :
+  (forall v, nth v st LU <> LU -> nth v st' LU = nth v st LU) ->
+  (exists m, m < n /\ nth m st LU = LU /\ nth m st' LU <> LU) -> cntU st' < cntU st.
+Proof.
+  intros Hstay [m [Hm [HU HnU]]]. unfold cntU. apply filter_length_strict.
+  - intros v _ H. unfold is_U in *. apply label_eqb_eq in H. apply label_eqb_eq.
+    destruct (label_eqb (nth v st LU) LU) eqn:E; [apply label_eqb_eq; exact E|].
+    apply label_eqb_neq in E. rewrite (Hstay v E) in H. contradiction.
+  - exists m. split; [apply in_seq; lia|]. unfold is_U. split; [rewrite HU; reflexivity|].
+    apply label_eqb_neq. exact HnU.
+Qed.
+
+Lemma cntU_pos st v : v < n -> nth v st LU = LU -> 0 < cntU st.
+Proof.
+  intros Hv HU. unfold cntU.
+  assert (H : In v (filter (fun v => is_U (nth v st LU)) (seq 0 n))).
+  { apply filter_In. split; [apply in_seq; lia|unfold is_U; rewrite HU; reflexivity]. }
+  destruct (filter _ (seq 0 n)); [destruct H|simpl; lia].
+Qed.
+
+Definition flags_ok (dys : list pdyn) : Prop :=
+  forall dy, In dy dys -> d_un F dy = [] -> d_unoff F dy = [] -> d_active F dy = false.
+
+Lemma par_loop_total fuel : forall (dys : list pdyn) st w,
+  GI dys st w -> flags_ok dys -> cntU st <= fuel ->
+  exists dys' st' w',
+    par_loop F zero one ltb R CL fuel bs (dys, st, w) = Some (dys', st', w') /\
+    GI dys' st' w' /\ (forall v, v < n -> nth v st' LU <> LU) /\
+    (forall v, nth v st LU <> LU -> nth v st' LU = nth v st LU).
+Proof.
+  induction fuel as [|f IH]; intros dys st w HG HF Hc.
+  - (* no unassigned vertex: nobody is active *)
+    assert (Hno : forall v, v < n -> nth v st LU <> LU).
+    { intros v Hv HU. pose proof (cntU_pos st v Hv HU). lia. }
+    assert (Hex : existsb (d_active F) dys = false).
+    { apply existsb_false. intros dy Hdy. apply HF; [exact Hdy| |].
+      - destruct HG as [_ [_ [HL [HR _]]]]. apply (In_nth _ _ (mkPdyn F [] [] [] [] false)) in Hdy. destruct Hdy as [i [Hi E]].
+        assert (Hbd : In (nth i bs (0, 0), dy) (combine bs dys)).
+        { rewrite <- E. rewrite <- (combine_nth bs dys i (0, 0) (mkPdyn F [] [] [] [] false)) by (symmetry; exact HL).
+          apply nth_In. rewrite combine_length. lia. }
+        destruct (HR _ dy Hbd) as [_ [_ [_ [Hun _]]]].
+        destruct (d_un F dy) as [|u l] eqn:Eu; [reflexivity|exfalso].
+        destruct (proj1 (Hun u) (or_introl eq_refl)) as [H1 H2].
+        apply (Hno u); [|exact H2]. apply (in_block_lt (nth i bs (0, 0)) u); [apply nth_In; lia|exact H1].
+      - destruct HG as [_ [_ [HL [HR _]]]]. apply (In_nth _ _ (mkPdyn F [] [] [] [] false)) in Hdy. destruct Hdy as [i [Hi E]].
+        assert (Hbd : In (nth i bs (0, 0), dy) (combine bs dys)).
+        { rewrite <- E. rewrite <- (combine_nth bs dys i (0, 0) (mkPdyn F [] [] [] [] false)) by (symmetry; exact HL).
+          apply nth_In. rewrite combine_length. lia. }
+        destruct (HR _ dy Hbd) as [_ [_ [_ [_ [_ [Huo _]]]]]].
+        destruct (d_unoff F dy) as [|u l] eqn:Eu; [reflexivity|exfalso].
+        destruct (proj1 (Huo u) (or_introl eq_refl)) as [H1 H2].
+        apply (Hno u); [|exact H2]. apply (colmap_lt _ u H1). }
+    exists dys, st, w. simpl. rewrite Hex. auto.
+  - cbn [par_loop fst]. destruct (existsb (d_active F) dys) eqn:Hex.
+    + destruct (par_round_GI false dys st w HG) as [dys' [st' [w' [Hr [HG' [_ [HF' [Hstay Hprog]]]]]]]].
+      rewrite Hr.
+      destruct (Nat.eq_dec (cntU st) 0) as [Z|Z].
+      * (* nobody unassigned: the round changes nothing that matters; recurse with the same bound *)
+        destruct (IH dys' st' w' HG' HF') as [d2 [s2 [w2 [E2 [G2 [T2 S2]]]]]].
+        { assert (cntU st' <= cntU st); [|lia]. unfold cntU.
+          assert (Hle : forall (p p' : nat -> bool) l, (forall x, p' x = true -> p x = true) ->
+                        length (filter p' l) <= length (filter p l)).
+          { intros p p' l H. induction l as [|a l IHl]; simpl; [lia|].
+            destruct (p' a) eqn:E; [rewrite (H a E); simpl; lia|destruct (p a); simpl; lia]. }
+          apply Hle. intros v H. unfold is_U in *. apply label_eqb_eq in H.
+          destruct (label_eqb (nth v st LU) LU) eqn:E; [reflexivity|].
+          apply label_eqb_neq in E. rewrite (Hstay v E) in H. contradiction. }
+        exists d2, s2, w2. split; [exact E2|]. split; [exact G2|]. split; [exact T2|].
+        intros v Hv. rewrite S2; [apply Hstay; exact Hv|rewrite (Hstay v Hv); exact Hv].
+      * assert (Hex2 : exists v, v < n /\ nth v st LU = LU).
+        { unfold cntU in Z. destruct (filter (fun v => is_U (nth v st LU)) (seq 0 n)) as [|v l] eqn:E; [simpl in Z; lia|].
+          assert (Hi : In v (filter (fun v => is_U (nth v st LU)) (seq 0 n))) by (rewrite E; left; reflexivity).
+          apply filter_In in Hi. destruct Hi as [H1 H2]. apply in_seq in H1. exists v. split; [lia|].
+          apply label_eqb_eq. exact H2. }
+        pose proof (cntU_decrease st st' Hstay (Hprog Hex2)) as Hdec.
+        destruct (IH dys' st' w' HG' HF') as [d2 [s2 [w2 [E2 [G2 [T2 S2]]]]]]; [lia|].
+        exists d2, s2, w2. split; [exact E2|]. split; [exact G2|]. split; [exact T2|].
+        intros v Hv. rewrite S2; [apply Hstay; exact Hv|rewrite (Hstay v Hv); exact Hv].
+    + assert (Hno : forall v, v < n -> nth v st LU <> LU).
+      { intros v Hv HU. destruct HG as [_ [_ [HL [HR _]]]]. destruct (Hcover v Hv) as [b [Hb Hin]].
+        destruct (combine_In_l dys b HL Hb) as [dy Hbd]. destruct (HR b dy Hbd) as [_ [_ [_ [Hun [_ [_ [_ Hact]]]]]]].
+        assert (Ha : d_active F dy = false).
+        { destruct (d_active F dy) eqn:E; [|reflexivity].
+          assert (existsb (d_active F) dys = true); [|congruence]. apply existsb_exists. exists dy. split; [|exact E].
+          apply in_combine_r in Hbd. exact Hbd. }
+        destruct (Hact Ha) as [E1 _]. assert (Hi : In v (d_un F dy)) by (apply Hun; auto). rewrite E1 in Hi. destruct Hi. }
+      exists dys, st, w. auto.
 Qed.
